@@ -754,7 +754,7 @@ type utxoGen struct {
 	scripts [][]byte   // script pool; a prefix of it is watched
 	watched [][]byte
 	// flags for non-triviality
-	present                        map[tx.PrevOut]bool
+	present                       map[tx.PrevOut]bool
 	reAdd, absentSpend, sameBlock bool
 }
 
@@ -776,7 +776,9 @@ func (g *utxoGen) value() uint64 {
 
 func (g *utxoGen) script() []byte { return g.scripts[g.r.rng.Intn(len(g.scripts))] }
 
-func keyFields(k tx.PrevOut) string { return hex.EncodeToString(k.Hash[:]) + ":" + strconv.Itoa(int(k.Index)) }
+func keyFields(k tx.PrevOut) string {
+	return hex.EncodeToString(k.Hash[:]) + ":" + strconv.Itoa(int(k.Index))
+}
 
 func revHex(h [32]byte) string {
 	rev := make([]byte, 32)
